@@ -374,7 +374,8 @@ LeavesMin == {SetC(KA, "int", "1"), SetC(KB, "int", "2"), Plain("ucfs"), MFab}
 (* key.                                                                    *)
 (***************************************************************************)
 KRT == <<"rt">>
-SetNone(path) == [k |-> "set", p |-> path, v |-> [t |-> "none", toks |-> <<Lit("None")>>]]
+\* str(None) = "None", spelled in one-character tokens like every string
+SetNone(path) == [k |-> "set", p |-> path, v |-> [t |-> "none", toks |-> <<Lit("N"), Lit("o"), Lit("n"), Lit("e")>>]]
 SetEmptyStr(path) == [k |-> "set", p |-> path, v |-> [t |-> "str", toks |-> <<>>]]
 LeavesFocus3b == {SetC(KOX, "int", "1"), SetC(KRT, "int", "5"), Plain("ucfs"), Consumer("mf", <<Fld(KOX)>>),
                   Consumer("mf", <<Fld(KRT)>>), Plain("store")}
@@ -397,9 +398,11 @@ FamT_B == {Fam("B6", LeavesTiny, 6, SeqRoots)}
 FamT_C == {Fam("C7", LeavesNested, 7, SeqRoot)}
 FamT_D == {Fam("D6", LeavesCore, 6, SeqRoots)}
 FamT_F == {Fam("F1", LeavesFocus1, 7, SeqRoot), Fam("F2d", LeavesFocus2b, 6, AllRoots),
-           Fam("F2", LeavesFocus2, 5, SeqRoots), Fam("F3", LeavesFocus3b, 5, SeqRoots),
-           Fam("F4", LeavesFocus4, 5, SeqRoots)}
-FamThorough == FamT_A \cup FamT_B \cup FamT_C \cup FamT_D \cup FamT_F
+           Fam("F2", LeavesFocus2, 5, SeqRoots), Fam("F3", LeavesFocus3b, 5, SeqRoot),
+           Fam("F4", LeavesFocus4, 4, AllRoots)}
+FamT_F1 == {f \in FamT_F : f.id \in {"F1", "F2d", "F2"}}
+FamT_F2 == {f \in FamT_F : f.id \in {"F3", "F4"}}
+FamThorough == FamT_A \cup FamT_B \cup FamT_C \cup FamT_F
 FamSim == {Fam("W8", LeavesWide, 8, AllRoots)}
 FamAlias == {Fam("alias", LeavesMin, 4, SeqRoots)}
 FamTail == {Fam("tail", LeavesMin, 5, SrcRoot)}
